@@ -563,11 +563,12 @@ let attack_rate_discrete_init _ _ _ _ _ =
 (** val attack_rate_discrete_step :
     q -> q -> q -> (q -> q) -> (q -> q) -> q -> q **)
 
-let attack_rate_discrete_step v_p _ v_phiS0 v_psihatPrime _ v_theta =
+let attack_rate_discrete_step v_p v_phiR0 v_phiS0 v_psihatPrime _ v_theta =
   qplus (qminus { qnum = (Zpos XH); qden = XH } v_p)
     (qmult v_p
-      (qdiv (qmult v_phiS0 (v_psihatPrime v_theta))
-        (v_psihatPrime { qnum = (Zpos XH); qden = XH })))
+      (qplus v_phiR0
+        (qdiv (qmult v_phiS0 (v_psihatPrime v_theta))
+          (v_psihatPrime { qnum = (Zpos XH); qden = XH }))))
 
 (** val attack_rate_discrete_ret :
     q -> q -> q -> (q -> q) -> (q -> q) -> q -> q **)
